@@ -36,7 +36,7 @@ def showOne (s : State) : Show → String
 
 def touched : Op → List Show
   | .linsertl v _ | .lappendl v | .lprependl v | .lswap v | .lcopy v | .lassign v => [.l v, .l (1 - v)]
-  | .leq _ _ => []
+  | .leq _ _ | .aeq _ _ => []
   | .lappend v _ | .lprepend v _ | .linsert v _ _ | .lremove v _ | .lremovev v _ | .lremoveFront v
   | .lremoveBack v | .lclear v | .lfind v _ | .lfront v | .lback v | .lsort v => [.l v]
   | .pswap v => [.p v, .p (1 - v)]
@@ -99,6 +99,7 @@ def parseOp (ws : List String) : Option Op :=
   | ["aget", v, i] => do pure (.aget (← v.toNat?) (← i.toNat?))
   | ["afront", v] => do pure (.afront (← v.toNat?))
   | ["aback", v] => do pure (.aback (← v.toNat?))
+  | ["aeq", v, w] => do pure (.aeq (← v.toNat?) (← w.toNat?))
   | _ => none
 
 /-! The pointer-level model (PtrModel.lean) of the two List and the two PoolList variables is run in lockstep: every op is
